@@ -203,3 +203,4 @@ theorem EmitsPrefix.toks_prefix {es as : List SFrame} (h : EmitsPrefix es as) : 
   rw [← h.toks_eq, toks_append]; exact List.prefix_append _ _
 
 end H2V.Lemmas.ConnFidP
+
